@@ -30,12 +30,12 @@ use time::OffsetDateTime;
 use super::dnssec::{anchors_for, build_zone, ds_for, truth_of, KeyRef, Nx, Router, Truth, World, ZoneSpec};
 use super::update::finish;
 
-fn n(s: &str) -> Name {
+pub(super) fn n(s: &str) -> Name {
     Name::from_ascii(s).unwrap()
 }
 
 #[derive(Serialize, Deserialize, Clone, Copy, Debug, PartialEq, Eq, PartialOrd, Ord)]
-enum Fault {
+pub(super) enum Fault {
     Alter(u8),
     Remove(u8),
     InjectUnsigned,
@@ -60,7 +60,7 @@ enum Fault {
 }
 
 #[derive(Serialize, Deserialize, Clone, Copy, Debug, PartialEq, Eq, PartialOrd, Ord)]
-enum Class {
+pub(super) enum Class {
     /// the exchange carrying the user's own question
     Main,
     Dnskey,
@@ -70,39 +70,39 @@ enum Class {
 }
 
 #[derive(Serialize, Deserialize, Clone, Debug)]
-struct FaultAt {
-    class: Class,
+pub(super) struct FaultAt {
+    pub(super) class: Class,
     /// k-th exchange of that class within the run (`255` = every one)
-    occurrence: u8,
-    fault: Fault,
+    pub(super) occurrence: u8,
+    pub(super) fault: Fault,
     /// only exchanges whose question name is this one (empty = any)
     #[serde(default)]
-    qname: String,
+    pub(super) qname: String,
 }
 
 #[derive(Serialize, Deserialize, Clone, Debug)]
-struct Plan {
-    sim: SimConfig,
-    nsec3: [bool; 3],
-    iterations: u16,
-    opt_out: bool,
+pub(super) struct Plan {
+    pub(super) sim: SimConfig,
+    pub(super) nsec3: [bool; 3],
+    pub(super) iterations: u16,
+    pub(super) opt_out: bool,
     /// tld signed with the two key-tag-colliding keys
-    tld_collision_keys: bool,
-    leaf_key_alg: u8,
-    queries: Vec<usize>,
-    concurrent: bool,
-    faults: Vec<FaultAt>,
+    pub(super) tld_collision_keys: bool,
+    pub(super) leaf_key_alg: u8,
+    pub(super) queries: Vec<usize>,
+    pub(super) concurrent: bool,
+    pub(super) faults: Vec<FaultAt>,
     /// the DS RRset of leaf.tld. additionally holds a DS with an unsupported algorithm
     #[serde(default)]
-    mixed_ds: bool,
+    pub(super) mixed_ds: bool,
 }
 
-struct Names {
-    queries: Vec<(Query, &'static str)>,
+pub(super) struct Names {
+    pub(super) queries: Vec<(Query, &'static str)>,
 }
 
 /// (query, expected security of the owner zone)
-fn all_queries() -> Names {
+pub(super) fn all_queries() -> Names {
     let q = |s: &str, t: RecordType| Query::new(n(s), t);
     Names {
         queries: vec![
@@ -149,7 +149,7 @@ fn nx(p: &Plan, level: usize) -> Nx {
     }
 }
 
-fn build_world(p: &Plan) -> (World, Vec<KeyRef>) {
+pub(super) fn build_world(p: &Plan) -> (World, Vec<KeyRef>) {
     let root_key = KeyRef::ed(0);
     let tld_keys = if p.tld_collision_keys {
         vec![KeyRef { file: "ed25519-coll-a.pk8".into(), alg: "ed25519".into() }, KeyRef { file: "ed25519-coll-b.pk8".into(), alg: "ed25519".into() }]
@@ -250,11 +250,11 @@ fn attacker_sign(owner: &Name, rtype: RecordType, rdatas: Vec<RData>, ttl: u32, 
     out
 }
 
-fn zone_of_owner(world: &World, owner: &Name) -> Name {
+pub(super) fn zone_of_owner(world: &World, owner: &Name) -> Name {
     world.zones.iter().filter(|z| z.origin.zone_of(owner)).map(|z| z.origin.clone()).max_by_key(|o| o.num_labels()).unwrap_or_else(Name::root)
 }
 
-fn apply_fault(world: &World, q: &Query, orig: &Message, f: Fault) -> Option<Option<Message>> {
+pub(super) fn apply_fault(world: &World, q: &Query, orig: &Message, f: Fault) -> Option<Option<Message>> {
     let mut m = orig.clone();
     let zone = zone_of_owner(world, &q.name);
     match f {
@@ -435,6 +435,51 @@ fn gen_fault(r: &mut Rng) -> FaultAt {
     FaultAt { class, occurrence, fault, qname: String::new() }
 }
 
+pub(super) fn gen_plan(seed: u64) -> Plan {
+    let mut r = Rng::new(seed);
+    let mut sim = SimConfig::from_seed(seed);
+    sim.step_budget = 2_000_000;
+    let nq = 1 + r.usize_below(3);
+    let total = all_queries().queries.len();
+    let queries = (0..nq).map(|_| r.usize_below(total)).collect();
+    let fault_free = r.chance(1, 4);
+    let mut faults = Vec::new();
+    if !fault_free {
+        for _ in 0..1 + r.usize_below(3) {
+            faults.push(gen_fault(&mut r));
+        }
+        // the downgrade shape needs its two halves together
+        if r.chance(1, 4) {
+            faults = vec![FaultAt { class: Class::Main, occurrence: 255, fault: Fault::StripAndAlter, qname: String::new() }, FaultAt { class: Class::NsProbe, occurrence: 255, fault: Fault::ForgeNs, qname: String::new() }];
+        }
+        // key substitution needs three cooperating halves
+        if r.chance(1, 6) {
+            let z = r.pick(&["leaf.tld.", "leaf.tld.", "tld."]).to_string();
+            faults = vec![
+                FaultAt { class: Class::Ds, occurrence: 255, fault: Fault::InjectForeignDs, qname: z.clone() },
+                FaultAt { class: Class::Dnskey, occurrence: 255, fault: Fault::AttackerDnskeys, qname: z },
+                FaultAt { class: Class::Main, occurrence: 255, fault: Fault::InjectAttackerSigned, qname: String::new() },
+            ];
+        }
+        // the order of a DS RRset is the sender's choice
+        if r.chance(1, 6) {
+            faults.push(FaultAt { class: Class::Ds, occurrence: 255, fault: Fault::ReorderAnswer, qname: String::new() });
+        }
+    }
+    Plan {
+        sim,
+        nsec3: [r.bool(), r.bool(), r.bool()],
+        iterations: *r.pick(&[0u16, 1, 5]),
+        opt_out: r.chance(1, 3),
+        tld_collision_keys: r.chance(1, 4),
+        leaf_key_alg: r.below(4) as u8,
+        queries,
+        concurrent: r.chance(1, 3),
+        faults,
+        mixed_ds: r.chance(1, 3),
+    }
+}
+
 impl Part for C07Part {
     fn name(&self) -> &'static str {
         "chain"
@@ -449,49 +494,7 @@ impl Part for C07Part {
         16
     }
     fn gen(&self, seed: u64, _tier: Tier) -> Value {
-        let mut r = Rng::new(seed);
-        let mut sim = SimConfig::from_seed(seed);
-        sim.step_budget = 2_000_000;
-        let nq = 1 + r.usize_below(3);
-        let total = all_queries().queries.len();
-        let queries = (0..nq).map(|_| r.usize_below(total)).collect();
-        let fault_free = r.chance(1, 4);
-        let mut faults = Vec::new();
-        if !fault_free {
-            for _ in 0..1 + r.usize_below(3) {
-                faults.push(gen_fault(&mut r));
-            }
-            // the downgrade shape needs its two halves together
-            if r.chance(1, 4) {
-                faults = vec![FaultAt { class: Class::Main, occurrence: 255, fault: Fault::StripAndAlter, qname: String::new() }, FaultAt { class: Class::NsProbe, occurrence: 255, fault: Fault::ForgeNs, qname: String::new() }];
-            }
-            // key substitution needs three cooperating halves
-            if r.chance(1, 6) {
-                let z = r.pick(&["leaf.tld.", "leaf.tld.", "tld."]).to_string();
-                faults = vec![
-                    FaultAt { class: Class::Ds, occurrence: 255, fault: Fault::InjectForeignDs, qname: z.clone() },
-                    FaultAt { class: Class::Dnskey, occurrence: 255, fault: Fault::AttackerDnskeys, qname: z },
-                    FaultAt { class: Class::Main, occurrence: 255, fault: Fault::InjectAttackerSigned, qname: String::new() },
-                ];
-            }
-            // the order of a DS RRset is the sender's choice
-            if r.chance(1, 6) {
-                faults.push(FaultAt { class: Class::Ds, occurrence: 255, fault: Fault::ReorderAnswer, qname: String::new() });
-            }
-        }
-        serde_json::to_value(Plan {
-            sim,
-            nsec3: [r.bool(), r.bool(), r.bool()],
-            iterations: *r.pick(&[0u16, 1, 5]),
-            opt_out: r.chance(1, 3),
-            tld_collision_keys: r.chance(1, 4),
-            leaf_key_alg: r.below(4) as u8,
-            queries,
-            concurrent: r.chance(1, 3),
-            faults,
-            mixed_ds: r.chance(1, 3),
-        })
-        .unwrap()
+        serde_json::to_value(gen_plan(seed)).unwrap()
     }
     fn run(&self, plan: &Value, trace: bool) -> Report {
         let mut p: Plan = serde_json::from_value(plan.clone()).expect("plan");
@@ -572,7 +575,7 @@ impl Part for C07Part {
     }
 }
 
-fn fault_code(f: Fault) -> u64 {
+pub(super) fn fault_code(f: Fault) -> u64 {
     match f {
         Fault::Alter(_) => 1,
         Fault::Remove(_) => 2,
@@ -592,12 +595,12 @@ fn fault_code(f: Fault) -> u64 {
     }
 }
 
-fn fault_name(f: Fault) -> String {
+pub(super) fn fault_name(f: Fault) -> String {
     format!("{f:?}").split('(').next().unwrap().to_string()
 }
 
 /// genuine RRset for (owner, type), including wildcard synthesis inside the owner's zone
-fn genuine(world: &World, truths: &BTreeMap<String, Truth>, owner: &Name, t: RecordType) -> Option<Vec<RData>> {
+pub(super) fn genuine(world: &World, truths: &BTreeMap<String, Truth>, owner: &Name, t: RecordType) -> Option<Vec<RData>> {
     // DS lives in the parent
     let zone = if t == RecordType::DS {
         world.zones.iter().filter(|z| z.origin.zone_of(owner) && z.origin != *owner).map(|z| z.origin.clone()).max_by_key(|o| o.num_labels())?
@@ -730,6 +733,13 @@ async fn scenario(p: Plan) {
     for (i, res) in results {
         let (query, expect) = &qs.queries[p.queries[i] % qs.queries.len()];
         let qdesc = format!("{} {}", query.name, query.query_type);
+        if exec::tracing() {
+            exec::log(&format!("validator result for {qdesc}: {}", match &res {
+                Some(Ok(r)) => format!("Ok rcode={:?} an={:?} ns={:?}", r.metadata.response_code, r.answers.iter().map(|x| format!("{} {} {:?}", x.name, x.record_type(), x.proof)).collect::<Vec<_>>(), r.authorities.iter().map(|x| format!("{} {} {:?}", x.name, x.record_type(), x.proof)).collect::<Vec<_>>()),
+                Some(Err(e)) => format!("Err {e}"),
+                None => "none".into(),
+            }));
+        }
         let in_secure_zone = |owner: &Name| {
             let z = zone_of_owner(&world, owner);
             secure_zones.contains(&z)
@@ -836,5 +846,5 @@ async fn scenario(p: Plan) {
 }
 
 pub fn def() -> CheckDef {
-    CheckDef { id: "C07", level: "exploration", parts: vec![Box::new(C07Part)] }
+    CheckDef { id: "C07", level: "exploration", parts: vec![Box::new(C07Part), Box::new(super::c07front::ServerPart)] }
 }
